@@ -387,8 +387,113 @@ def stepConnect (st : State) (host user up down : String) (gaps : List Nat) (imp
     (st, verdictOf model impl prop)
   | _, _, _, _ => (st, .bad "connect")
 
+/-! ### faults in the middle of an exchange (ops `freq`, `fh2c`; harness/eng_http_fault.go)
+
+    The sender's side of the story is in the op line (framing, announced length, where the fault strikes), the
+    reader's side in the result.  Frp/Model/HttpAbort.lean says how the message ends after frps' hop
+    (`hop C02.frpEnv`, one hop: the backend is the recording one); how many bytes were still buffered in the hop
+    when it aborted is taken from the implementation's result (relational).  `C02.abortHolds` is evaluated on what
+    the final reader really got. -/
+
+/-- `<kind>:<seed>.<len>.<hash>` ↦ (kind, len); "-" ↦ ("-", 0) -/
+def bodyLen (t : String) : Option (String × Nat) :=
+  if t = "-" then some ("-", 0)
+  else match t.splitOn ":" with
+    | [k, tok] => match tok.splitOn "." with
+      | [_, len, _] => len.toNat?.map (fun n => (k, n))
+      | _ => none
+    | _ => none
+
+def framingOf (k : String) : Option HttpAbort.Framing :=
+  if k = "cl" then some .cl else if k = "ch" then some .ch else if k = "eof" then some .eof else none
+
+/-- `d<k>` / `q<k>` / `u<k>` -/
+def parseFault (t : String) : Option (Char × Nat) :=
+  match t.toList with
+  | c :: rest => (String.ofList rest).toNat?.map (fun n => (c, n))
+  | [] => none
+
+def natField (fs : List String) (key : String) : Option Nat := (field fs key).bind String.toNat?
+
+def stepFault (st : State) (h2 : Bool) (host path user body status rbody fault : String) (impl : String) : State × Verdict :=
+  match unhx host, unhx path, (if user = "-" then some [] else unhx user), bodyLen body, status.toNat?,
+        bodyLen rbody, parseFault fault with
+  | some host, some path, some user, some (bk, bn), some status, some (rk, rn), some (fc, fk) =>
+    let fs := impl.splitOn " "
+    let upath := pctDecode path
+    let conn := (field fs "c").bind parseConn
+    let st := match conn with
+      | some (reuse, _) => adoptSpare st (keyOf poolIsFixed st.P (routeOf st.P host upath user) host none) reuse ((field fs "be").bind String.toNat?)
+      | none => st
+    let s := st.P
+    let rt := rtString s host upath user
+    let (reuse, newId) := conn.getD (none, 0)
+    let (P', out) := HttpPool.step poolIsFixed s (.serve host upath user none reuse newId false)
+    let st' := match conn with
+      | some _ => noteConn { st with P := P' } reuse newId
+      | none => st
+    let reachedI := ((field fs "be").bind String.toNat?).isSome
+    let stI := stOf fs
+    let endI := (field fs "end").getD "-"
+    let pre := field fs "pre" = some "1"
+    match out with
+    | .answered o c reused =>
+      let head := s!"be={o} rt={rt} ow={ownerNote s o rt} c={c}{if reused then "r" else "n"}"
+      let fresh := match (field fs "be").bind String.toNat? with
+        | some be => C02.freshB s host upath user be
+        | none => true
+      if fc = 'd' then
+        match framingOf rk with
+        | none => (st, .bad "fault: answer framing")
+        | some fr =>
+          let snd : HttpAbort.Sent := { fr := fr, total := rn, k := min fk rn, died := true }
+          let nI := (natField fs "n").getD 0
+          -- bytes the hop had read but not passed on when it aborted: from the implementation's result
+          let lost := snd.k - nI
+          let u := HttpAbort.readOf (HttpAbort.hop C02.frpEnv snd lost)
+          -- a cut answer: whether the status line had left the server's buffer is the server's business
+          let stM := if u.ended then status else if stI = 0 then 0 else status
+          let tail := if h2 then s!"st={stM} pr=h2 n={u.n} pre=1 end={if u.ended then "ok" else "cut"}"
+                      else s!"! st={stM} fr={(field fs "fr").getD "?"} n={u.n} pre=1 end={if u.ended then "ok" else "cut"}"
+          let prop := reachedI && fresh &&
+            C02.abortHolds { fr := fr, total := rn, k := snd.k, died := true, n := nI, ended := endI == "ok", prefixOk := pre } &&
+            (stI == status || (stI == 0 && endI != "ok")) && endI != "timeout"
+          (st', verdictOf (head ++ " " ++ tail) impl (some prop))
+      else if fc = 'q' then
+        -- the backend died before it answered: the not-found page, or the connection ends; never a hang
+        let up := (natField fs "up").getD 0
+        let okPage := stI == 404 && field fs "b" = some "page" && endI == "ok"
+        let okCut := stI == 0 && endI == "cut"
+        let tail := if okCut then s!"up={up} ! st=0 b=- end=cut" else s!"up={up} ! st=404 b=page end=ok"
+        (st', verdictOf (head ++ " " ++ tail) impl (some (reachedI && fresh && (okPage || okCut) && decide (up ≤ fk))))
+      else
+        -- the user died inside its request body
+        match framingOf bk with
+        | none => (st, .bad "fault: request framing")
+        | some fr =>
+          if !reachedI then
+            -- nothing was forwarded before the user was gone: nothing to demand
+            (st, verdictOf impl impl (some true))
+          else
+            let snd : HttpAbort.Sent := { fr := fr, total := bn, k := min fk bn, died := true }
+            let upI := (natField fs "up").getD 0
+            let u := HttpAbort.readOf (HttpAbort.hopUp snd (snd.k - upI))
+            let tail := s!"up={u.n} pre=1 whole={if u.ended then "1" else "0"}"
+            let prop := fresh && C02.abortHolds { fr := fr, total := bn, k := snd.k, died := true, n := upI,
+                                                   ended := field fs "whole" = some "1", prefixOk := pre }
+            (st', verdictOf (head ++ " " ++ tail) impl (some prop))
+    | _ =>
+      -- no reachable backend: the not-found page, complete (for a user that died: nothing)
+      if fc = 'u' then (st, verdictOf s!"be=- rt={rt} c=-" impl (some (!reachedI)))
+      else
+        let model := if h2 then s!"be=- rt={rt} st=404 pr={if rt = "-" then "h1" else "h2"} b=page" else s!"be=- rt={rt} c=- ! st=404 b=page end=ok"
+        (st, verdictOf model impl (some (C02.tunnelHolds reachedI true stI status false false (field fs "b" = some "page"))))
+  | _, _, _, _, _, _, _ => (st, .bad "fault op")
+
 def step (st : State) (tok : List String) (impl : String) : State × Verdict :=
   match tok with
+  | ["freq", host, path, user, _method, body, status, rbody, fault] => stepFault st false host path user body status rbody fault impl
+  | ["fh2c", host, path, user, status, rbody, fault] => stepFault st true host path user "-" status rbody fault impl
   | ["reset"] => ({}, verdictOf "-" impl)
   | ["reg", id, d, l, u, rw, hs, rhs, mode] =>
     match id.toNat?, unhx d, unhx l, unhx u, unhx rw, parsePairs hs, parsePairs rhs with
